@@ -51,6 +51,10 @@ add("C09", E2,
     "Runtime monitor: the full source-kind x receiver-role x cluster x confederation matrix (360 cells incl. echo variants) crossed with a covering set + random attribute vectors (every AS_PATH segment type, full 255-AS segment, next-hop kinds, MED, LOCAL_PREF, ORIGINATOR_ID, CLUSTER_LIST, AIGP, communities, opaque attributes, LLGR-stale sources, policy next-hop/MED actions) through both branches of the real process_nlri_change with a recording sink, judged by an expected_export function written from the statement; inbound is_as_loop / rx_update loop checks with the RIB read back; role and cluster-id derivation through accept_connection on TOML neighbour configs.",
     "Trusted: expected_export (Suppress | Send{attrs', nexthop'}); where the statement is silent (RS-client transparency, confed MED/next hop, policy MED on eBGP, LLGR to non-LLGR peers) nothing is judged. Debug profile only (E2).",
     "runtime monitoring: reference-function oracle over an enumerated configuration matrix x generated attribute vectors")
+add("C11", E2,
+    "Runtime monitor: a real RestartingDeferral in Global.selection_deferral coupled to a real TableManager through the real process_restarting_outputs / gr_selection_deferral_timer_expired (and through PeerSession::process_effects); event sequences over 3 peers x 3 families (PeerEstablished with any family subset, EOR, PeerWithdrawn, TimerExpired) enumerated exhaustively to depth 4 (quick; up to peer renaming) / 5 (thorough) plus random histories to length 40, interleaved with insert_route into deferred and non-deferred families and observed on a registered peer channel; judged by a pending-map model written from the statement: held, release-iff (not early, not late), exactly-once per prefix at release, non-GR peers never block, terminates.",
+    "Trusted: the pending-map model; steps the statement leaves undefined are counted unjudged. Timer expiry is an event of the history (the glue function is called directly), not wall-clock.",
+    "runtime monitoring: exhaustive bounded event-sequence enumeration + random histories against a reference model, observing the real change stream")
 add("C17", E2,
     "Runtime monitor: (a) round trip attr_to_api->attr_from_api and nlri_to_api->net_from_api on values obtained by decoding hand-built UPDATEs for all 19 families and attribute kinds; (b) totality: directed + random API messages under catch_unwind, every accepted value checked by an independent validator written from the wire rules and then used (Table insert next to competing paths, apply_import with 13 conditions, RPKI validate, export for 5 roles, encode_to with 2/4-octet AS, display) - a panic there is a violation; (c) store-and-show through the real GrpcService add_path -> list_path -> delete_path for all families.",
     "Trusted: the wire-rule validator and the documented canonicalisations of local_path (ORIGIN/AS_PATH defaults, ORIGINATOR_ID/CLUSTER_LIST/MP_UNREACH dropped, next hop as NEXT_HOP or MP_REACH). In-process calls, no gRPC transport. Debug profile only (E2).",
